@@ -242,7 +242,8 @@ class Scheduler:
             ct.pending = {"op": "done"}
             ct.enabled_fn = None
             self.by_ident.pop(_get_ident(), None)
-            self.back.release()
+            if not self.aborted:  # (after abort() nobody waits on `back`; several threads unwind at once)
+                self.back.release()
 
     # -- called from controlled threads ---------------------------------------------------------
     def me(self):
